@@ -207,6 +207,34 @@ def verify_unit(root, unit, workdir, rlimit, seed, canary=None, threads=8):
         r = parse_verus(path, mapf, rc, so, se)
         if r["status"] == "resource":
             r["status"] = "undecided"
+    if r["status"] == "fail" and canary is None:
+        # a failed obligation counts only if it fails under every solver seed tried: an obligation that is discharged under some
+        # seed has a proof (unstable, reported as such), and must never raise an alarm
+        key = lambda f: (f.get("function"), f.get("message"), f.get("unit_text"))
+        stable = {key(f): f for f in r["failures"]}
+        flaky = []
+        for extra_seed in (seed + 17, seed + 31):
+            rc2, so2, se2, dt2, _ = run_verus(path, rlimit * 3, extra_seed, threads=threads)
+            dt += dt2
+            r2 = parse_verus(path, mapf, rc2, so2, se2)
+            if r2["status"] == "ok":
+                flaky = list(stable.values())
+                stable = {}
+                break
+            if r2["status"] != "fail":
+                continue
+            k2 = set(key(f) for f in r2["failures"])
+            for k in list(stable):
+                if k not in k2:
+                    flaky.append(stable.pop(k))
+            if not stable:
+                break
+        r["unstable_obligations"] = [{"function": f.get("function"), "message": f.get("message"), "unit_text": f.get("unit_text", "")[:160]} for f in flaky]
+        r["failures"] = list(stable.values())
+        if not r["failures"]:
+            r["status"] = "ok"
+            r["errors"] = 0
+            r["verified"] = r["verified"] + len(flaky)
     r.update({"unit": unit, "path": path, "map": mapf, "wall_s": dt, "cmd": cmd, "canary": canary})
     return r
 
@@ -451,6 +479,7 @@ def check_property(root, pid, tier, seed):
     clause_counts = {}
     samples = []
     canary_report = []
+    unstable_obl = []
     out_of_scope = []
     seeds_report = []
     cmds = []
@@ -476,6 +505,8 @@ def check_property(root, pid, tier, seed):
                     c = dict(c)
                     c["statement_sha256"] = hashlib.sha256(c["statement"].encode()).hexdigest()[:16]
                     cuts.append(c)
+            for uo in r.get("unstable_obligations", []):
+                unstable_obl.append(dict(uo, unit=u["unit"]))
             cc = clause_count(r["path"], r["map"])
             for k, v in cc.items():
                 clause_counts[k] = clause_counts.get(k, 0) + v
@@ -508,6 +539,11 @@ def check_property(root, pid, tier, seed):
                     if not tags and scope is not None and fl.get("function") is not None and fl.get("function") not in scope:
                         # a function of this unit that carries another property: not this property's obligation
                         out_of_scope.append("%s::%s — %s" % (u["unit"], fl.get("function"), fl["message"]))
+                        continue
+                    if fl.get("function") is None and not fl.get("kani"):
+                        # the failing obligation lies in overlay text that is not extracted from /repo (a lemma or a spec function):
+                        # no edit of /repo can falsify it, so this is solver instability, never a violation
+                        undecided.append("unit %s: proof of a code-independent lemma failed (solver instability, unit line %s: %s): %s" % (u["unit"], fl.get("unit_line"), fl.get("unit_text", "")[:100], fl["message"]))
                         continue
                     # which Verus function failed? use the breakdown (success=false) restricted to the located item
                     failed_fns = [k for k, v in r["functions"].items() if not v["success"]]
@@ -601,6 +637,7 @@ def check_property(root, pid, tier, seed):
             "vacuity_canaries": canary_report,
             "seed_stability": seeds_report,
             "unstable": unstable,
+            "unstable_obligations_discharged_under_another_seed": unstable_obl,
             "kani": kani_report,
             "repo_state_scan": scan,
             "assumption_lines": {k: len(v) for k, v in assumptions_found.items()},
